@@ -19,7 +19,9 @@
 using namespace verif;
 using namespace vp;
 
-#ifdef VERIF_GENERIC
+#if defined(VERIF_GENERIC_VALUE)
+#define HNAME "h_histv-"
+#elif defined(VERIF_GENERIC)
 #define HNAME "h_histg-"
 #else
 #define HNAME "h_hist-"
@@ -151,8 +153,24 @@ template <class D> struct Hist {
       return clampc(t.i64_pool() >> 2);
     return z_number(t.small_int(10));
   }
-  const var_t &ivar() { return u.ints[t.pick((unsigned)u.ints.size())]; }
-  const var_t &bvar() { return u.bools[t.pick((unsigned)u.bools.size())]; }
+  // operands are drawn with locality of reference: 3 times out of 8 the variable used most
+  // recently is taken again, so that consecutive steps talk about the same variables
+  // (define, redefine, then use: where stale facts about a variable show)
+  int hot_i = -1, hot_b = -1;
+  const var_t &ivar() {
+    unsigned k = t.pick(8);
+    if (k < 3 && hot_i >= 0)
+      return u.ints[(unsigned)hot_i];
+    hot_i = (int)t.pick((unsigned)u.ints.size());
+    return u.ints[(unsigned)hot_i];
+  }
+  const var_t &bvar() {
+    unsigned k = t.pick(8);
+    if (k < 3 && hot_b >= 0)
+      return u.bools[(unsigned)hot_b];
+    hot_b = (int)t.pick((unsigned)u.bools.size());
+    return u.bools[(unsigned)hot_b];
+  }
   lin_t linexp(unsigned maxterms, std::set<var_t> &m) {
     unsigned n = t.pick(maxterms + 1);
     lin_t e(cnst());
@@ -632,11 +650,9 @@ template <class D> struct Hist {
     std::vector<int> kinds = {0, 0, 1, 1, 2, 3, 4, 4, 4, 5, 6, 7, 8};
     if (!u.wides.empty())
       kinds.push_back(9);
-    if (!u.bools.empty()) {
-      kinds.push_back(10);
-      kinds.push_back(10);
-      kinds.push_back(10);
-    }
+    if (!u.bools.empty())
+      for (int q = 0; q < 9; q++) // boolean domains: about a third of the transfer steps are boolean
+        kinds.push_back(10);
     kinds.push_back(11);
     kinds.push_back(12);
     int kd = kinds[t.pick((unsigned)kinds.size())];
